@@ -1,14 +1,19 @@
 #!/bin/bash
-# Re-applies every kept behaviour-preserving refactor (benign/<id>/<name>/patch.diff) in the scratch worktree /tmp/mt
-# and runs ALL property checks on it in one process. Any VIOLATION / CHECK-BROKEN line is a false alarm.
-cd /tmp/mt || exit 9
+# Re-applies every kept behaviour-preserving refactor (benign/<id>/<name>/patch.diff) in a scratch worktree (default
+# /tmp/mt) and runs ALL property checks on it in one process. Any VIOLATION / CHECK-BROKEN line is a false alarm.
+# Sharding for parallel runs: WT=/tmp/mt2 SHARD=1 NSHARDS=4 tools/rebenign_all.sh (the scratch tree's verif dir
+# $WT-verif needs a copy of known_findings.json).
+WT=${WT:-/tmp/mt}; SHARD=${SHARD:-0}; NSHARDS=${NSHARDS:-1}; BIN=${BIN:-/verif/bin/osmolint}
+cd $WT || exit 9
+mkdir -p $WT-verif; cp /verif/known_findings.json $WT-verif/
 git checkout -q -- . ; git clean -fdq . ; git checkout -q --detach main
-tot=0; silent=0
+tot=0; silent=0; i=0
 for d in /verif/benign/*/*/; do
+  i=$((i+1)); [ $((i % NSHARDS)) -eq $SHARD ] || continue
   id=$(basename $(dirname $d))/$(basename $d)
   git checkout -q -- .
   if ! git apply --whitespace=nowarn $d/patch.diff 2>/dev/null; then echo "$id NOAPPLY"; tot=$((tot+1)); continue; fi
-  res=$(VERIF_REPO=/tmp/mt VERIF_DIR=/tmp/mt-verif /verif/bin/osmolint -property all 2>&1)
+  res=$(VERIF_REPO=$WT VERIF_DIR=$WT-verif $BIN -property all 2>&1)
   tot=$((tot+1))
   if echo "$res" | grep -q "^VIOLATION\|^CHECK-BROKEN"; then echo "$id ALARM"; echo "$res" | grep -A2 "^VIOLATION\|^CHECK-BROKEN" | head -6 | cut -c1-300; else silent=$((silent+1)); fi
 done
